@@ -46,6 +46,16 @@ def cases(rng, tier):
         out.append({'fn': 'Linear', 'shape': [rng.randint(1, 6), rng.randint(1, 6)], 'bias': rng.chance(.7), 'seed': seed, 'dt': 'f32', 'rg': True, 'args': []})
         out.append({'fn': 'Conv1d', 'shape': [rng.randint(1, 4), rng.randint(1, 4), rng.randint(1, 4)], 'bias': rng.chance(.7), 'seed': seed, 'dt': 'f32', 'rg': True, 'args': []})
         out.append({'fn': 'Conv2d', 'shape': [rng.randint(1, 4), rng.randint(1, 4), rng.randint(1, 3), rng.randint(1, 3)], 'bias': rng.chance(.7), 'seed': seed, 'dt': 'f32', 'rg': True, 'args': []})
+    # sizes given as narrow NumPy integers (read from a config array / an image header), with fans beyond the range of that type
+    for _ in range(3 if tier == 'quick' else 40):
+        seed = rng.randrange(2 ** 31)
+        sp = rng.pick(['u8', 'i8', 'i16'])
+        if sp == 'i16' and rng.chance(.5):
+            out.append({'fn': 'Conv1d', 'shape': [2, rng.randint(8200, 9000), rng.randint(4, 5)], 'bias': True, 'seed': seed, 'dt': 'f32', 'rg': True, 'args': [], 'spell': sp})
+        else:
+            out.append({'fn': 'Conv1d', 'shape': [rng.randint(1, 3), rng.randint(30, 100), rng.randint(3, 7)], 'bias': rng.chance(.7), 'seed': seed, 'dt': 'f32', 'rg': True, 'args': [], 'spell': sp})
+        out.append({'fn': 'Conv2d', 'shape': [rng.randint(1, 3), rng.randint(20, 70), rng.randint(2, 5), rng.randint(2, 5)], 'bias': rng.chance(.7), 'seed': seed, 'dt': 'f32', 'rg': True, 'args': [], 'spell': sp})
+        out.append({'fn': 'Linear', 'shape': [rng.randint(1, 3), rng.randint(100, 127)], 'bias': True, 'seed': seed, 'dt': 'f32', 'rg': True, 'args': [], 'spell': sp})
     for nl in NLS:
         for p in [None, 0, 0.01, 0.2, 1.0]:
             out.append({'fn': 'gain', 'nl': nl, 'p': p})
@@ -94,11 +104,14 @@ def _run(c):
         np.random.seed(c['seed'])
         if fn in ('Linear', 'Conv1d', 'Conv2d'):
             s = c['shape']
+            if c.get('spell'):
+                I = {'u8': np.uint8, 'i8': np.int8, 'i16': np.int16}[c['spell']]
+                s = [I(v) for v in s]
             if fn == 'Linear': layer = nn.Linear(s[1], s[0], bias=c['bias'])
             elif fn == 'Conv1d': layer = nn.Conv1d(s[1], s[0], s[2], bias=c['bias'])
             else: layer = nn.Conv2d(s[1], s[0], (s[2], s[3]), bias=c['bias'])
             tensors = [layer.weight] + ([layer.bias] if c['bias'] else [])
-            ok = list(layer.weight.shape) == s and all(t.requires_grad and t.dtype == np.float32 for t in tensors)
+            ok = list(layer.weight.shape) == c['shape'] and all(t.requires_grad and t.dtype == np.float32 for t in tensors)
             return {'cap': list(cap), 'tensors': [t.data.copy() for t in tensors], 'ok': ok}
         t = sg.Tensor(np.full(c['shape'], 7.0, dtype=dt), requires_grad=c['rg'])
         # numeric arguments also arrive as NumPy float64 scalars (a subclass of float with the same precision), e.g. gain=np.sqrt(2.0)
